@@ -107,6 +107,10 @@ class PhaseField(_Simu):
         self.__psiP_e_pg: FeArray.FeArrayALike = np.empty(0, dtype=float)
         # old positive elastic energy density psiPlus(e, pg, 1) to use the miehe history field
         self.__old_psiP_e_pg: FeArray.FeArrayALike = np.empty(0, dtype=float)
+        # convergence informations of the last Solve(), saved with each iteration
+        self.__Niter = 0
+        self.__convIter = 0.0
+        self.__timeIter = 0.0
 
         self.Need_Update()
 
